@@ -760,6 +760,23 @@ package rosmar
 //@   modular
 //@   flag trusted=goroutine-pool
 //@
+// Replacing a design document drops the old one first (its views and their index rows go with it, ON DELETE CASCADE in
+// schema.sql) and creates the views afresh with plain INSERTs, so that no view keeps index rows or a lastCas computed
+// by an older map function.
+//@ fn (*Collection).getDDoc
+//@   modular
+//@   flag trusted=reads-designDocs-and-views-tables
+//@ fn (*Collection).forgetCachedViews
+//@   modular
+//@ fn (*Collection).PutDDoc
+//@   requires ddoc != nil
+//@   loop 1001 invariant [C12:PutDDoc.views-loop] true
+//@   loop 1002 invariant [C12:PutDDoc.cache-loop] true
+//@   ensures [C03,C10,C12:PutDDoc.onetxn] oneTxn() && sqlAllInTxn() && lockedThroughout("c.bucket.mutex")
+//@   ensures [C12:PutDDoc.drops-old-first] stmtCount("insert", "designDocs") >= 1 || stmtCount("insert", "views") >= 1 ==> stmtCount("delete", "designDocs") == 1 && stmtParamOf("delete", "designDocs", 0, "where:collection") == c.id && stmtParamOf("delete", "designDocs", 0, "where:name") == designDoc
+//@   ensures [C12:PutDDoc.views-never-updated-in-place] stmtCount("update", "views") == 0 && stmtCount("upsert", "views") == 0 && stmtCount("update", "designDocs") == 0 && stmtCount("upsert", "designDocs") == 0
+//@   ensures [C20:PutDDoc.unlocked] any: nolocks()
+//@
 //@ fn (*Collection).updateView
 //@   let v = callretval("Collection.findView", 0)
 //@   loop 1001 invariant [C12:updateView.rows-loop] true
